@@ -12,6 +12,11 @@ NoKo == {0}
 NoHost == {FALSE}
 NoDup == {FALSE}
 NoPreview == {}
+TwoMods == {1, 2}
+ThreeMods == {1, 2, 3}
+NoImp == {FALSE}
+AllCtxs == {"stmt", "rhs", "nested", "suffix", "cont"}
+AllFurniture == {"none", "from_then_lazy_import"}
 AllPreviews == {"intro", "same"}
 KoOnly == {1, 2}
 
@@ -21,14 +26,14 @@ KoOnly == {1, 2}
 \* binding, parameters that must be passed explicitly, the spec's own
 \* re-emitted call).
 SigBehaviour ==
-  [kinds |-> Kinds, sig0 |-> sig0, sig1 |-> sig, chg |-> chg, pre |-> pre,
+  [kinds |-> Kinds, furniture |-> Furniture, sig0 |-> sig0, sig1 |-> sig, chg |-> chg, pre |-> pre,
    sites |-> { [c0 |-> c0, c1 |-> calls[c0], b0 |-> Binding(sig0, c0),
                 exp |-> exp[c0], expl |-> expl[c0]] : c0 \in DOMAIN calls }]
 ExportSig == (Task = "sig" /\ chg # <<>>) => PrintT(<<"BEH", ToJson(SigBehaviour)>>)
 
 \* Behaviour export (Task = "inline"): one line per completed request
 InlineBehaviour ==
-  [kinds |-> Kinds, sig |-> sig, sites |-> sites, opt |-> opt,
+  [kinds |-> Kinds, ctxs |-> Ctxs, sig |-> sig, sites |-> sites, opt |-> opt, imported |-> imported,
    b0 |-> [i \in DOMAIN sites |-> ShowMap(ParMap(sig, sites[i].c, i))],
    bind |-> [i \in DOMAIN sites |-> SiteBinding(i)],
    shown |-> shown, shownD |-> shownD, shownS |-> shownS, shownL |-> shownL, targets |-> Targets, stale |-> stale, defgone |-> defgone,
